@@ -1,13 +1,14 @@
 #!/bin/bash
-# usage: tools/seed_batch.sh "C14 1" "C14 2" ...   (4 at a time)
-run_one() { set -- $1; /venv/bin/python /verif/tools/seed.py $1 ${WT_PREFIX:-/tmp/wt_}$1/_mut/$2 ${1}-m$2 ${3:+--checks $3} > /tmp/seed_${1}_$2.log 2>&1; }
+# usage: [WT_PREFIX=/tmp/w3_] [SEED_OFFSET=2] tools/seed_batch.sh "C14 1" "C14 2 C14,C01" ...   (4 at a time)
+# item = "<PROP> <n> [checks]": directory ${WT_PREFIX}<PROP>/_mut/<n>, seed id <PROP>-m<n+SEED_OFFSET>
+run_one() { set -- $1; id=$(( $2 + ${SEED_OFFSET:-0} )); /venv/bin/python /verif/tools/seed.py $1 ${WT_PREFIX:-/tmp/wt_}$1/_mut/$2 ${1}-m$id ${3:+--checks $3} > /tmp/seed_${1}_$id.log 2>&1; }
 export -f run_one
-printf '%s\n' "$@" | xargs -P 4 -I{} bash -c 'run_one "{}"'
-for x in "$@"; do set -- $x; /venv/bin/python - <<PY
+printf '%s\n' "$@" | xargs -P ${SEED_PAR:-4} -I{} bash -c 'run_one "{}"'
+for x in "$@"; do set -- $x; id=$(( $2 + ${SEED_OFFSET:-0} )); /venv/bin/python - <<PY
 import json
 try:
-    m=json.load(open('/verif/seeded/$1-m$2/meta.json'))
-    print('$1-m$2', {k:m.get(k) for k in ('demo_clean_exit','patch_applies','demo_mutant_exit','tests_same_as_baseline')}, {c:(v['detected'],v['n_keys'],v['wall_s'],v['violation_keys'][:2]) for c,v in m['checks'].items()})
-except Exception as e: print('$1-m$2 FAILED', e)
+    m=json.load(open('/verif/seeded/$1-m$id/meta.json'))
+    print('$1-m$id', {k:m.get(k) for k in ('demo_clean_exit','patch_applies','demo_mutant_exit','tests_same_as_baseline')}, {c:(v['detected'],v['exit'],v['n_keys'],v['wall_s'],v['violation_keys'][:2]) for c,v in m['checks'].items()})
+except Exception as e: print('$1-m$id FAILED', e)
 PY
 done
